@@ -204,6 +204,9 @@ def gen_project(rng, size="small", features=None, focus=None):
         if pick(rng, 0.25):
             bd["var_options"] = {rng.choice(["CFLAGS", "LIBS", "X"]): {k: v for k, v in
                                  (("joiner", ","), ("prefix", "-p"), ("suffix", ";"), ("start", "<"), ("end", ">")) if pick(rng, 0.5)}}
+            if pick(rng, 0.4):
+                # a variable rendered from: another one (X is used by the compile rule, CFLAGS is extended by modules)
+                bd["var_options"]["X"] = {"from": "CFLAGS", "prefix": "-from", **({"joiner": "+"} if pick(rng, 0.5) else {})}
         builders.append(bd)
     if pick(rng, 0.12):
         # no env on the default context: its variables move to the builders (contexts without any env up the chain exist)
@@ -241,8 +244,8 @@ def gen_project(rng, size="small", features=None, focus=None):
         dl = dep_list(rng, names, nmax=4)
         if dl: a[rng.choice(["selects", "depends"])] = dl
         if pick(rng, 0.15): a["conflicts"] = [rng.choice(names)]
-        if pick(rng, 0.12): a["allowlist"] = rng.sample(ctx_all_names, rng.randint(1, 2))
-        if pick(rng, 0.12): a["blocklist"] = rng.sample(ctx_all_names, rng.randint(1, 2))
+        if pick(rng, 0.12): a["allowlist"] = rng.sample(ctx_all_names, rng.randint(0 if pick(rng, 0.3) else 1, 2))     # an empty allowlist: built nowhere
+        if pick(rng, 0.12): a["blocklist"] = rng.sample(ctx_all_names, rng.randint(0 if pick(rng, 0.2) else 1, 2))
         env = {}
         for scope in ("local", "export", "global"):
             e = rand_env(rng, penv, pool=VARS)
